@@ -84,3 +84,16 @@ Definition wf_req_head (h : req_head) : Prop :=
 (** What a parser is expected to report for a field: name, value without the surrounding OWS. *)
 Definition field_header (f : field) : header := (f_name f, f_value f).
 Definition headers_of (fs : list field) : list header := map field_header fs.
+
+(** The fields of [fs] whose lines lie completely within the first [n] bytes of [render_lines fs]. *)
+Fixpoint fields_within (fs : list field) (n : N) : list field :=
+  match fs with
+  | [] => []
+  | f :: t => if len (render_field f) <=? n
+              then f :: fields_within t (n - len (render_field f))
+              else []
+  end.
+
+(** For a prefix [p] of a rendered response head [h]: the fields whose lines are complete in [p]. *)
+Definition complete_fields (h : resp_head) (p : bytes) : list field :=
+  fields_within (rh_fields h) (len p - len (render_status_line h)).
